@@ -52,6 +52,21 @@ Proof.
       right; intros w b Hb; exact (fixed_len _ w b Hb).
 Qed.
 
+Definition const_size (t : ftype) : option Z :=
+  match t with
+  | TSfixed32 | TFixed32 | TFloat => Some 4
+  | TSfixed64 | TFixed64 | TDouble => Some 8
+  | TBool => Some 1
+  | _ => None
+  end.
+
+Lemma const_len : forall t w b c, e_scalar t w = Ok b -> const_size t = Some c -> zlen b = c.
+Proof.
+  intros t w b c H Hc. pose proof (fixed_len t w b H) as Hf.
+  destruct t; try discriminate Hc; inversion Hc; subst c; try exact Hf.
+  cbn [e_scalar] in H. inversion H. rewrite e_bool_spec. reflexivity.
+Qed.
+
 Section Rep.
 Variable E : env.
 Notation IHm v := (forall m, v = VMsg (Some m) -> wf_msg E m = true -> msg_agree E m).
@@ -112,7 +127,8 @@ Lemma packed_elems : forall f, is_scalar (f_type f) = true ->
     sumM_n (pb_payload_len_elem f) l n = Ok (zlen p) /\
     concatM_n (pb_packed_elem f) l n = Ok cs /\ concat cs = p /\ length cs = n /\
     min_size (f_type f) * Z.of_nat n <= zlen p <= 10 * Z.of_nat n /\
-    (min_size (f_type f) = 1 \/ zlen p = min_size (f_type f) * Z.of_nat n).
+    (min_size (f_type f) = 1 \/ zlen p = min_size (f_type f) * Z.of_nat n) /\
+    (forall c, const_size (f_type f) = Some c -> zlen p = c * Z.of_nat n).
 Proof.
   intros f Hs l. induction l as [|v l IHl]; intros n Hn W.
   - destruct n; [|cbn in Hn; lia]. exists [], []. cbn. repeat split; try lia.
@@ -121,7 +137,7 @@ Proof.
     + cbn [forallb] in W. apply andb_true_iff in W. destruct W as [Wv Wl].
       destruct (wf_cell_scalar _ _ _ _ Hs Wv) as (w & ->).
       destruct (scalar_agree (f_type f) w Hs) as (b & Hb & Hsz & _).
-      destruct (IHl n ltac:(cbn in Hn; lia) Wl) as (p & cs & H1 & H2 & H3 & H4 & H5 & H6 & H7 & H8).
+      destruct (IHl n ltac:(cbn in Hn; lia) Wl) as (p & cs & H1 & H2 & H3 & H4 & H5 & H6 & H7 & H8 & H9).
       destruct (min_size_cases (f_type f) Hs) as [Hrange Hfix].
       pose proof (Hrange w b Hb) as Hr.
       assert (Ek : pk_packed_elem f (VWord w) = Ok b).
@@ -143,6 +159,7 @@ Proof.
       * cbn [app length]. lia.
       * destruct Hfix as [Hf1 | Hfx]; [left; exact Hf1|].
         destruct H8 as [H8 | H8]; [left; exact H8|]. right. rewrite (Hfx w b Hb). lia.
+      * intros c Hc. rewrite (const_len _ w b c Hb Hc). rewrite (H9 c Hc). lia.
 Qed.
 
 End Rep.
